@@ -1,16 +1,16 @@
 (* Property C04: encoding bytecode and decoding it again preserves behaviour.
-   Status: PARTIAL.  Proved for all values: varint / zig-zag / length-prefixed varint round
-   trips and the round trip of every scalar constant kind (int, uint, char, float as its 64
-   bits incl. -0 and NaN payloads, bool, undefined) and of strings and bytes of any content,
-   each followed by arbitrary further bytes (so they compose inside containers), and of every
-   value built from those by arrays and maps nested to any depth (C04_container_rt_partial), and of
-   compiled functions - parameter and local counts, instructions, variadic flag, source map -
-   (C04_cfunc_rt_partial).
-   Not yet proved (kept as a definition, decided on every run by cross decoding model <->
-   implementation and whole-program round trips): sync maps, function objects, compiled functions nested in containers, the
-   Bytecode container with its file set. *)
+   C04_object_rt: for every object the tagged codec can hold - scalars in range, strings, bytes,
+   arrays, maps, sync maps (nil or not), function and builtin function objects, compiled functions
+   (parameter and local counts, instructions, variadic flag, source map), nested through arrays,
+   maps and sync maps to any depth - decoding the encoding, followed by arbitrary further bytes,
+   returns exactly that object and those bytes (map entries in the order the encoder wrote them).
+   Varint / zig-zag / length-prefixed varint round trips are proved separately.
+   Modelled but not proved as a whole: compiled functions stored as constants inside other compiled
+   functions are a field of Bytecode, not of the object codec: the Bytecode container (constants
+   array, main function, module count) and the file set are exercised by cross decoding model <->
+   implementation and whole-program round trips on every run (hence PARTIAL). *)
 From Coq Require Import List ZArith Bool Lia.
-From Ugo Require Import Base.Res Codec.Varint Codec.VarintProofs Codec.Obj Codec.ObjProofs Codec.ObjArrayProofs Codec.ObjMapProofs Codec.ObjCFuncProofs.
+From Ugo Require Import Base.Res Codec.Varint Codec.VarintProofs Codec.Obj Codec.ObjProofs Codec.ObjArrayProofs Codec.ObjMapProofs Codec.ObjCFuncProofs Codec.ObjFullProofs.
 Import ListNotations.
 Local Open Scope Z_scope.
 
@@ -24,10 +24,19 @@ Fixpoint encodable (v : cval) : bool :=
   | _ => true
   end.
 
-(* full statement *)
-Definition C04_object_rt_full : Prop :=
-  forall v rest, encodable v = true ->
-  exists v', decode (encode v ++ rest) = Ok (v', rest) /\ encode v' = encode v.
+(* the objects: scalars in range, well-formed compiled functions *)
+Theorem C04_object_rt :
+  forall v rest, okv v -> zlen (encode v) < 2 ^ 61 ->
+  forall fuel, (depthf v < fuel)%nat -> decode_object fuel (encode v ++ rest) = Ok (v, rest).
+Proof. exact object_rt. Qed.
+Print Assumptions C04_object_rt.
+
+(* in particular at the fuel the decoder starts with *)
+Theorem C04_decode_encode :
+  forall v rest, okv v -> zlen (encode v) < 2 ^ 61 -> (depthf v <= List.length (encode v ++ rest))%nat ->
+  decode (encode v ++ rest) = Ok (v, rest).
+Proof. intros v rest Hok Hsz Hd. unfold decode. apply object_rt; [exact Hok | exact Hsz | lia]. Qed.
+Print Assumptions C04_decode_encode.
 
 Theorem C04_varint_rt :
   forall x rest, - 2 ^ 63 <= x < 2 ^ 63 ->
@@ -96,6 +105,17 @@ Example C04_cfunc_example :
   decode (encode (CCompiled fn) ++ [9]) = Ok (CCompiled fn, [9]) /\
   decode (encode (CCompiled empty_cfunc)) = Ok (CCompiled empty_cfunc, []).
 Proof. vm_compute. split; reflexivity. Qed.
+
+Example C04_object_example :
+  let v := CArr [CSyncMap None; CSyncMap (Some []); CSyncMap (Some [([97], CFunc [102]); ([], CBuiltin [108; 101; 110])]);
+                 CMap [([99], CCompiled empty_cfunc); ([100], CArr [CStr [120]; CChar (-1)])]] in
+  okv v /\ depthf v = 3%nat /\ decode (encode v ++ [7]) = Ok (v, [7]).
+Proof.
+  cbv zeta. split; [|split; vm_compute; reflexivity].
+  assert (Hwf: wf_cfunc empty_cfunc).
+  { unfold wf_cfunc, empty_cfunc. cbn [cf_params cf_locals cf_insts cf_srcmap]. split; [lia|]. split; [lia|]. split; intros x E; discriminate. }
+  cbn [okv snd]. repeat match goal with |- _ /\ _ => split end; try exact I; try lia; exact Hwf.
+Qed.
 
 Example C04_container_example :
   let v := CArr [CInt (-5); CMap [([107], CArr [CStr [104; 105]; CArr []; CFloat 9223372036854775808]); ([], CMap [])]; CBytes []] in
